@@ -59,13 +59,17 @@ Definition mon_next (m : mon) (prev : x_obs) (op : x_op) : mon :=
     let hs := flat_map snd jobs in
     {| m_quiet := filter (fun q => existsb (N.eqb (fst q)) hs) (m_quiet m);
        m_failed := filter (fun h => existsb (N.eqb h) hs) (m_failed m);
-       m_stale := filter (fun h => negb (existsb (N.eqb h) hs)) (xo_inflight prev) ++ m_stale m;
+       (* every running probe of a hash that leaves the table is stale; for a hash that stays, the probes that were stale
+          before still are (a multiset: one entry per running stale probe) *)
+       m_stale := filter (fun h => negb (existsb (N.eqb h) hs)) (xo_inflight prev) ++
+                  filter (fun h => existsb (N.eqb h) hs) (m_stale m);
        m_ever_ok := m_ever_ok m |}
   | XApplyConfig _ =>       (* conservative: forget *)
-    {| m_quiet := []; m_failed := []; m_stale := xo_inflight prev ++ m_stale m; m_ever_ok := m_ever_ok m |}
+    {| m_quiet := []; m_failed := []; m_stale := xo_inflight prev; m_ever_ok := m_ever_ok m |}
   | XDone h r =>
     if existsb (N.eqb h) (m_stale m)
-    then {| m_quiet := m_quiet m; m_failed := m_failed m; m_stale := filter (fun x => negb (N.eqb x h)) (m_stale m);
+    then {| m_quiet := m_quiet m; m_failed := m_failed m;
+            m_stale := remove_first h (m_stale m);    (* the oldest running probe of h finishes: a stale one, if any *)
             m_ever_ok := match r with POk _ _ => h :: m_ever_ok m | PFail => m_ever_ok m end |}
     else if Nat.eqb (length (filter (N.eqb h) (xo_inflight prev))) 1
     then match r with
